@@ -124,20 +124,17 @@ fn resolve_foreign_keys(
     foreign_keys_paths: BTreeSet<(Key, KeyPath)>,
 ) -> Result<()> {
     for (locale, value_path) in foreign_keys_paths {
-        let value = values
-            .get_value_at(&locale, &value_path)
-            // the path was registered before the plurals were merged:
-            // a foreign key written in a plural form (`key_one`) now lives in the plural `key`.
-            .or_else(|| {
-                let plural_path = plural_key_path(&value_path)?;
-                values.get_value_at(&locale, &plural_path)
-            });
+        // the path was registered before the plurals were merged:
+        // a foreign key written in a plural form (`key_one`) now lives in the plural `key`,
+        // and another plural (`key_one_one` + `key_one_other`) may have taken its place at `key_one`: look at both.
+        let at_path = values.get_value_at(&locale, &value_path);
+        let in_plural = plural_key_path(&value_path)
+            .and_then(|plural_path| values.get_value_at(&locale, &plural_path));
         // the path was registered while parsing: a later duplicate of one of its keys
         // may have replaced the value it lived in, nothing is left to resolve then.
-        let Some(value) = value else {
-            continue;
-        };
-        value.resolve_foreign_key(values, &locale, default_locale, extensions, &value_path)?;
+        for value in at_path.into_iter().chain(in_plural) {
+            value.resolve_foreign_key(values, &locale, default_locale, extensions, &value_path)?;
+        }
     }
     Ok(())
 }
